@@ -66,10 +66,16 @@ def main(outdir):
                  'using namespace drv; using trompeloeil::_;',
                  'namespace drv { bool make_expectation_%d(int slot, int shape) { SlotCfg& c = cfg[slot]; switch (slot * 100 + shape) {' % n]
         for (S, sh) in tu:
-            macro = {'REQ': 'NAMED_REQUIRE_CALL', 'ALLOW': 'NAMED_ALLOW_CALL', 'FORBID': 'NAMED_FORBID_CALL'}[sh['macro']]
             ct = call_text(sh, S)
-            code = 'case %d: exps[%d] = %s(*mocks[cfg[%d].mock], %s)%s; return true;' % (
-                S * 100 + sh['id'], S, macro, S, ct, ''.join(clause_code(t, S) for t in sh['cl']))
+            mods = ''.join(clause_code(t, S) for t in sh['cl'])
+            if sh['macro'].endswith('_V'):
+                macro = {'REQ_V': 'NAMED_REQUIRE_CALL_V', 'ALLOW_V': 'NAMED_ALLOW_CALL_V', 'FORBID_V': 'NAMED_FORBID_CALL_V'}[sh['macro']]
+                code = 'case %d: exps[%d] = %s(*mocks[cfg[%d].mock], %s%s); return true;' % (
+                    S * 100 + sh['id'], S, macro, S, ct, (', ' + mods) if mods else '')
+            else:
+                macro = {'REQ': 'NAMED_REQUIRE_CALL', 'ALLOW': 'NAMED_ALLOW_CALL', 'FORBID': 'NAMED_FORBID_CALL'}[sh['macro']]
+                code = 'case %d: exps[%d] = %s(*mocks[cfg[%d].mock], %s)%s; return true;' % (
+                    S * 100 + sh['id'], S, macro, S, ct, mods)
             lines.append(code)
             sites['%s:%d' % (fname, len(lines))] = dict(kind='exp', slot=S, shape=sh['id'], name='*mocks[cfg[%d].mock].' % S + ct)
         lines.append('default: return false; } } }')
